@@ -417,6 +417,8 @@ func zeroOfSort(s string) Term {
 
 const prelude = `
 (declare-sort Str 0)
+(declare-fun sidx (Int Int) Int)
+(assert (forall ((o Int) (k Int)) (! (= (sidx o k) (+ o k)) :pattern ((sidx o k)))))
 (declare-datatypes ((Slice 0)) (((mkslice (sarr Int) (soff Int) (slen_ Int) (scap Int)))))
 (declare-fun slen (Str) Int)
 (declare-fun sbytes (Str) (Array Int Int))
@@ -457,7 +459,7 @@ const prelude = `
 ; string(bytes[off:off+n]) and string(runes[off:off+n])
 (declare-fun str_of_bytes ((Array Int Int) Int Int) Str)
 (assert (forall ((a (Array Int Int)) (o Int) (n Int)) (! (=> (>= n 0) (= (slen (str_of_bytes a o n)) n)) :pattern ((str_of_bytes a o n)))))
-(assert (forall ((a (Array Int Int)) (o Int) (n Int) (k Int)) (! (=> (and (<= 0 k) (< k n)) (= (sat (str_of_bytes a o n) k) (select a (+ o k)))) :pattern ((select (sbytes (str_of_bytes a o n)) k)))))
+(assert (forall ((a (Array Int Int)) (o Int) (n Int) (k Int)) (! (=> (and (<= 0 k) (< k n)) (= (sat (str_of_bytes a o n) k) (select a (sidx o k)))) :pattern ((select (sbytes (str_of_bytes a o n)) k)))))
 (declare-fun str_of_runes ((Array Int Int) Int Int) Str)
 (assert (forall ((a (Array Int Int)) (o Int) (n Int)) (! (and (>= (slen (str_of_runes a o n)) n) (=> (<= n 0) (= (slen (str_of_runes a o n)) 0)) (<= (slen (str_of_runes a o n)) (* 4 (ite (< n 0) 0 n)))) :pattern ((str_of_runes a o n)))))
 ; utf8 encoding of one rune: string(r)
@@ -470,13 +472,14 @@ const prelude = `
   :pattern ((utf8 r)))))
 (declare-const zarr_Str (Array Int Str))
 (assert (forall ((k Int)) (! (= (select zarr_Str k) lit_empty) :pattern ((select zarr_Str k)))))
-(declare-fun sidx (Int Int) Int)
-(assert (forall ((o Int) (k Int)) (! (= (sidx o k) (+ o k)) :pattern ((sidx o k)))))
+(assert (forall ((a Str) (r Int)) (! (= (rcount (scat a (utf8 r))) (+ (rcount a) 1)) :pattern ((rcount (scat a (utf8 r)))))))
+(assert (= (rcount lit_empty) 0))
 ; embedded struct addressing
 (declare-fun emb (Int Int) Int)
 (declare-fun embroot (Int) Int)
 (assert (forall ((p Int) (k Int)) (! (and (< (emb p k) 0) (= (embroot (emb p k)) p)) :pattern ((emb p k)))))
 (define-fun isfresh ((o Int) (a0 Int)) Bool (or (>= o a0) (and (< o 0) (>= (embroot o) a0))))
+(define-fun isalloc ((o Int) (a Int)) Bool (ite (>= o 0) (< o a) (< (embroot o) a)))
 ; maps (read-only after construction in the verified packages)
 (declare-fun maphas_Str (Int Str) Bool)
 (declare-fun mapval_Str_Str (Int Str) Str)
